@@ -529,9 +529,9 @@ let parse_jsch (t : string) : jsch =
   fst (go 0)
 
 (* value syntax (Dump), directed by the schema *)
-let parse_gval (s : jsch) (t : string) : gval =
+let parse_gval ?(pos = ref 0) (s : jsch) (t : string) : gval =
   let n = String.length t in
-  let i = ref 0 in
+  let i = pos in
   let has p = !i + String.length p <= n && String.sub t !i (String.length p) = p in
   let eat p = if has p then (i := !i + String.length p; true) else false in
   let until stops =
@@ -642,6 +642,62 @@ let u_line args =
      | Err k -> "model=Err(" ^ hex_of_str k ^ ") valid=" ^ (if valid then "1" else "0")
      | ErrOther -> "model=ErrOther valid=" ^ (if valid then "1" else "0"))
   | _ -> fail_line "U args"
+
+(* ---------- oneOf components (Model/OneOf.v) ---------- *)
+let otypes : (string, oneof) Hashtbl.t = Hashtbl.create 64
+
+let jo_line args =
+  match args with
+  | [pkg; name; key; cases; vs] ->
+    let variants = List.map parse_jsch (String.split_on_char '+' vs) in
+    let disc = if key = "-" then None else
+        Some (str_of_hex key,
+              List.map (fun c -> match String.split_on_char ':' c with
+                  | [i; names] -> (nat_of_int (int_of_string i), List.map str_of_hex (split_on '.' names))
+                  | _ -> failwith "JO case") (split_on ',' cases)) in
+    Hashtbl.replace otypes (pkg ^ " " ^ name) { o_variants = variants; o_disc = disc }; "SKIP otype"
+  | _ -> fail_line "JO args"
+
+(* {N,J(<value of variant 1>),N}: one Maybe field per variant *)
+let parse_oval (o : oneof) (t : string) : gval option list =
+  let pos = ref 1 in
+  List.map (fun s ->
+      let r =
+        if t.[!pos] = 'N' then (incr pos; None)
+        else begin
+          pos := !pos + 2;
+          let v = parse_gval ~pos s t in
+          if !pos < String.length t && t.[!pos] = ')' then incr pos;
+          Some v
+        end in
+      if !pos < String.length t && t.[!pos] = ',' then incr pos;
+      r) o.o_variants
+
+let dump_oval (o : oneof) (fs : gval option list) : string =
+  if List.length fs <> List.length o.o_variants then "?" else
+  "{" ^ String.concat "," (List.map2 (fun s f -> match f with None -> "N" | Some v -> "J(" ^ dump_gval s v ^ ")") o.o_variants fs) ^ "}"
+
+let dump_ores (o : oneof) r = match r with
+  | Ok fs -> dump_oval o fs
+  | Err k -> "Err(" ^ hex_of_str k ^ ")"
+  | ErrOther -> "ErrOther"
+
+let eo_line args =
+  match args with
+  | [pkg; name; v] ->
+    let o = Hashtbl.find otypes (pkg ^ " " ^ name) in
+    let fs = parse_oval o v in
+    (match oneof_enc fmt_float_o fmt_time_o o.o_variants fs with
+     | Ok j -> "model=" ^ hex (print_json j) ^ " back=" ^ dump_ores o (oneof_dec parse_num_o parse_time_oracle o j)
+     | _ -> "model=MarshalErr")
+  | _ -> fail_line "EO args"
+
+let uo_line args =
+  match args with
+  | [pkg; name; h] ->
+    let o = Hashtbl.find otypes (pkg ^ " " ^ name) in
+    "model=" ^ dump_ores o (oneof_dec parse_num_o parse_time_oracle o (parse_json_text (unhex h)))
+  | _ -> fail_line "UO args"
 
 (* ---------- C15: abstraction of a loaded document into the nil-safety model ---------- *)
 let jget (j : json) (k : string) : json option =
@@ -986,7 +1042,10 @@ let dispatch line =
   | "V" :: args -> v_line args
   | "X" :: args -> x_line args
   | ["N"; "pfn"; h] -> "model=" ^ hex_of_str (public_field_name (str_of_hex h))
-  | "F" :: _ | "RV" :: _ | "EO" :: _ | "JO" :: _ -> "SKIP not-modelled-line"
+  | "JO" :: args -> jo_line args
+  | "EO" :: args -> eo_line args
+  | "UO" :: args -> uo_line args
+  | "F" :: _ | "RV" :: _ -> "SKIP not-modelled-line"
   | "Y" :: args -> y_line args
   | "I" :: args -> i_line args
   | "R" :: args -> r_line args
